@@ -1091,6 +1091,18 @@ class ReftableRefsContainer(RefsContainer):
                 )  # First SHA1 hex chars
         return result
 
+    def get_symrefs(self) -> dict[Ref, Ref]:
+        """Get a dict with all symrefs in this container.
+
+        Returns: Dictionary mapping source ref to target ref
+        """
+        refs = self._read_all_tables()
+        return {
+            Ref(name): Ref(value)
+            for name, (value_type, value) in refs.items()
+            if value_type == REF_VALUE_SYMREF
+        }
+
     def get_peeled(self, name: Ref) -> ObjectID | None:
         """Return the cached peeled value of a ref, if available.
 
